@@ -264,6 +264,8 @@ type Call struct {
 	sentReq, sentReply interface{}
 	dyn                bool    // request and reply are of the run's own message type
 	lag                *reqCtx // the call runs under the application's shared request context
+	retry              bool    // FlagRetry
+	attempt            int
 	repick             bool    // FlagRepick
 	pendingRepick      bool
 	released, abandon  bool
@@ -345,6 +347,7 @@ type Sim struct {
 	twinSent     bool
 	dynT         reflect.Type // plan.DynMsg: message type made for this run
 	nRepicks     int
+	nRetries     int
 	req          *reqCtx  // the application's current request-scoped context
 	burstBound   []string // keys the concurrent burst certainly bound (enterSerial)
 	addrMaster   []resolver.Address
@@ -494,7 +497,7 @@ func (s *Sim) connState(id int, st connectivity.State) balancer.SubConnState {
 }
 
 // initAddrs: the lists the resolver delivers. 0-2 as ever; 3 three addresses; 4
-// twenty addresses; 5 the last nineteen of them; 6 and 7 lists 1 and 3 in another
+// forty-five addresses; 5 the last forty-four of them; 6 and 7 lists 1 and 3 in another
 // order; 8 one address that differs from list 0 in its server name, attributes
 // and (non-comparable) metadata only. With plan.SharedAddrs lists 0-5 are
 // windows into one array the resolver owns and keeps (a shorter list has the
@@ -505,15 +508,15 @@ func (s *Sim) connState(id int, st connectivity.State) balancer.SubConnState {
 //go:norace
 func (s *Sim) initAddrs() {
 	m := []resolver.Address{{Addr: "a:1"}, {Addr: "b:2"}, {Addr: "c:3"}}
-	for i := 3; i < 20; i++ {
+	for i := 3; i < 45; i++ {
 		m = append(m, resolver.Address{Addr: fmt.Sprintf("h%d:%d", i, i)})
 	}
 	s.addrMaster = make([]resolver.Address, len(m), len(m)+4)
 	for i := range m {
 		s.addrMaster[i] = m[i]
 	}
-	s.addrSets = [][]resolver.Address{m[0:1], m[0:2], m[2:3], m[0:3], m[0:20], m[1:20], {m[1], m[0]}, {m[2], m[0], m[1]}, {{Addr: "a:1", ServerName: "other.example", Attributes: attributes.New("zone", "z1"), BalancerAttributes: attributes.New("w", 3), Metadata: []string{"not", "comparable"}}}}
-	s.addrWin = [][2]int{{0, 1}, {0, 2}, {2, 3}, {0, 3}, {0, 20}, {1, 20}}
+	s.addrSets = [][]resolver.Address{m[0:1], m[0:2], m[2:3], m[0:3], m[0:45], m[1:45], {m[1], m[0]}, {m[2], m[0], m[1]}, {{Addr: "a:1", ServerName: "other.example", Attributes: attributes.New("zone", "z1"), BalancerAttributes: attributes.New("w", 3), Metadata: []string{"not", "comparable"}}}}
+	s.addrWin = [][2]int{{0, 1}, {0, 2}, {2, 3}, {0, 3}, {0, 45}, {1, 45}}
 	for _, a := range s.addrSets {
 		s.addrWant = append(s.addrWant, addrsString(a))
 	}
@@ -587,6 +590,9 @@ func (s *Sim) run() {
 	k.LogOn = s.Opts.Log
 	k.OpYields = 4000
 	k.MaxSteps = 300000
+	if s.plan.MassKeys {
+		k.MaxSteps = 4000000 // more than eight thousand calls
+	}
 	if s.plan.Cfg.Max > 100 && s.plan.Cfg.Max < 1000 {
 		k.MaxSteps = 4000000 // every pick reads the stream count of every channel (a yield point each)
 	}
@@ -1553,6 +1559,7 @@ func (s *Sim) startCall(i int, o Op) {
 	}
 	c.tag = &TaskTag{Op: i, Phase: PhPick, Call: c.ID}
 	c.repick = o.F&FlagRepick != 0 && !c.Stream
+	c.retry = o.F&FlagRetry != 0 && !c.Stream
 	c.RepickOf = -1
 	c.repickW.Note = fmt.Sprintf("call %d waits for a newer picker", c.ID)
 	s.calls = append(s.calls, c)
@@ -1674,7 +1681,17 @@ func (s *Sim) pickAndWait(ctx context.Context, c *Call) error {
 	for {
 		err := s.pick(ctx, c)
 		if err == nil {
-			return s.waitAndComplete(c)
+			err = s.waitAndComplete(c)
+			if err == nil && c.Outcome != OutRepick || !c.retry || c.attempt >= 1 || s.healing || s.stop || ctx.Err() != nil {
+				return err
+			}
+			// gRPC attempts the call again (transparent retry, retry policy): another
+			// pick with the very same context, another completion
+			n := s.cloneForPick(c)
+			n.attempt = c.attempt + 1
+			c = n
+			s.nRetries++
+			continue
 		}
 		if c.Res.Kind != ResWait || !c.repick || s.healing {
 			return err
@@ -1687,20 +1704,30 @@ func (s *Sim) pickAndWait(ctx context.Context, c *Call) error {
 		if c.abandon || ctx.Err() != nil {
 			return err
 		}
-		n := *c
-		n.ID = len(s.calls)
-		n.Age, n.PubIdx = 0, -1
-		n.Res, n.done = PickRes{}, nil
-		n.Invoked, n.Returned, n.Completed, n.InFlight = false, false, false, false
-		n.waiter = kern.Waiter{Note: fmt.Sprintf("call %d in flight", n.ID)}
-		n.repickW = kern.Waiter{Note: fmt.Sprintf("call %d waits for a newer picker", n.ID)}
-		n.peekBad = ""
-		n.RepickOf = c.ID
-		c = &n
-		c.tag.Call = c.ID
-		s.calls = kern.Push(s.calls, c)
+		c = s.cloneForPick(c)
 		s.nRepicks++
 	}
+}
+
+// cloneForPick: the record of one more pick of the same RPC (same context,
+// same messages), as a call of its own for the model.
+//
+//go:norace
+func (s *Sim) cloneForPick(c *Call) *Call {
+	n := *c
+	n.ID = len(s.calls)
+	n.Age, n.PubIdx = 0, -1
+	n.Res, n.done = PickRes{}, nil
+	n.Invoked, n.Returned, n.Completed, n.InFlight = false, false, false, false
+	n.Outcome = 0
+	n.released, n.abandon, n.pendingRepick = false, false, false
+	n.waiter = kern.Waiter{Note: fmt.Sprintf("call %d in flight", n.ID)}
+	n.repickW = kern.Waiter{Note: fmt.Sprintf("call %d waits for a newer picker", n.ID)}
+	n.peekBad = ""
+	n.RepickOf = c.ID
+	n.tag.Call, n.tag.Phase = n.ID, PhPick // (a retry follows a completion: the task is picking again)
+	s.calls = kern.Push(s.calls, &n)
+	return &n
 }
 
 // repicks releases the calls that were told to wait and for which a newer
@@ -2477,6 +2504,7 @@ func (s *Sim) finish() {
 	}
 	res := s.res
 	res.Count("fault:call_told_to_wait_picked_again_with_the_same_context", s.nRepicks)
+	res.Count("fault:failed_call_attempted_again_with_the_same_context", s.nRetries)
 	res.Steps = int(k.Steps())
 	res.SimNanos = int64(k.Elapsed())
 	res.Fingerprint = k.Fingerprint
